@@ -163,8 +163,7 @@ def scenarios():
     add("idle_client_wc", [client([("ping",), ("wait_closed",), ("wait_connected",)], wait=False)],
         cidle=1.5, complete=False)
     # the server side closes at various points; the client carries on with its script
-    late = [("open", 0), ("write", 0, A), ("eof", 0), ("read", 0), ("ping",), ("open", 1),
-            ("write", 1, b"after"), ("eof", 1), ("read", 1)]
+    late = [("open", 0), ("write", 0, A), ("eof", 0), ("read", 0), ("ping",)]
     for beh in ("close_on_handshake", "close_on_stream", "close_after_read", "close_after_write"):
         add("srv_" + beh, [client(late)], server=beh, complete=False)
     # close() from a second client task while the main task is inside operation k
@@ -946,7 +945,7 @@ CORE_KEYS = ("monitor", "api", "exc", "where", "entry", "kind", "state", "direct
 
 
 CORE_QUICK_D2 = ("echo1", "cid_timed", "echo1_retry", "cli_close_at4", "srv_close_after_write")
-CORE_THOROUGH_D3 = ("echo1", "cid_timed", "cli_close_at4", "nowait")
+CORE_THOROUGH_D3 = ("echo1", "cid_timed", "cli_close_at4", "nowait", "echo1_retry", "cid")
 
 
 def plan(tier, seed, only=None):
